@@ -252,15 +252,22 @@ func c09R4(c *Ctx) {
 	at := c.constTerm(pkgRoot, "AccessToken")
 	wantSrc := map[string]func(v *Term) bool{
 		"exp": func(v *Term) bool {
-			return at != nil && v.Contains(call(".GetExpiresAt", call(".GetSession", AR), at).Key())
+			// RFC 7662: seconds since the epoch — the Unix() of the access token's expiry, no other unit
+			return at != nil && v.Contains(call(".GetExpiresAt", call(".GetSession", AR), at).Key()) && !v.Mentions(func(s *Term) bool {
+				return s.IsCall(".UnixMilli") || s.IsCall(".UnixMicro") || s.IsCall(".UnixNano") || s.Op == "bin"
+			})
 		},
 		"client_id": func(v *Term) bool { return v.Key() == getID(getClient(AR)).Key() },
 		"scope":     func(v *Term) bool { return v.Contains(call(".GetGrantedScopes", AR).Key()) },
-		"iat":       func(v *Term) bool { return v.Contains(call(".GetRequestedAt", AR).Key()) },
-		"sub":       func(v *Term) bool { return v.Key() == call(".GetSubject", call(".GetSession", AR)).Key() },
-		"aud":       func(v *Term) bool { return v.Key() == call(".GetGrantedAudience", AR).Key() },
-		"username":  func(v *Term) bool { return v.Key() == call(".GetUsername", call(".GetSession", AR)).Key() },
-		"active":    func(v *Term) bool { return v.Key() == tTrue.Key() },
+		"iat": func(v *Term) bool {
+			return v.Contains(call(".GetRequestedAt", AR).Key()) && !v.Mentions(func(s *Term) bool {
+				return s.IsCall(".UnixMilli") || s.IsCall(".UnixMicro") || s.IsCall(".UnixNano") || s.Op == "bin"
+			})
+		},
+		"sub":      func(v *Term) bool { return v.Key() == call(".GetSubject", call(".GetSession", AR)).Key() },
+		"aud":      func(v *Term) bool { return v.Key() == call(".GetGrantedAudience", AR).Key() },
+		"username": func(v *Term) bool { return v.Key() == call(".GetUsername", call(".GetSession", AR)).Key() },
+		"active":   func(v *Term) bool { return v.Key() == tTrue.Key() },
 	}
 	okInactive, okSrc, okSkip := true, true, true
 	var wInactive, wSrc, wSkip *Path
